@@ -10,10 +10,12 @@ EXTENDS Bus, Json
 
 CONSTANTS Fns,        \* handler function identities (what Unsubscribe compares), usable with every type
           Vals,       \* event payloads
-          Ctxs,       \* context ids drivers may use (Bg always available)
+          Ctxs,       \* cancellable context ids (for cancel / Shutdown)
+          PubCtxs,    \* contexts publishes are made with (subset of Ctxs \cup {Bg})
           Profiles,   \* set of [once, async, seq, filt, accept, panics, body]
           Cfgs,       \* set of bus configurations
           TopKinds,   \* which operation kinds drivers issue at top level
+          Roles,      \* [Procs -> subset of TopKinds]: what each driver may issue (allRoles: everything)
           MaxReg, MaxPub,
           MaxTop,     \* generation only: number of top-level operations per behaviour (0 = unbounded)
           Mutant      \* "none" or the name of a design mutant (must make TLC find a violation)
@@ -36,16 +38,20 @@ SubOp(t, f, pr) == [op |-> "sub", id |-> NextRegId, t |-> t, fn |-> f, once |-> 
 \* body scripts contain templates; ids are filled in when the call is made
 Inst(o) == IF o.op = "sub" THEN SubOp(o.t, o.fn, o.pr) ELSE o
 
-TopOps ==
-       (IF "sub" \in TopKinds /\ NextRegId <= MaxReg THEN {SubOp(tf[1], tf[2], pr) : tf \in Types \X Fns, pr \in ProfChoice} ELSE {})
-  \cup (IF "unsub" \in TopKinds THEN [op : {"unsub"}, t : Types, fn : Fns] ELSE {})
-  \cup (IF "clear" \in TopKinds THEN [op : {"clear"}, t : Types] ELSE {})
-  \cup (IF "clearall" \in TopKinds THEN {[op |-> "clearall"]} ELSE {})
-  \cup (IF "count" \in TopKinds THEN [op : {"count"}, t : Types] ELSE {})
-  \cup (IF "pub" \in TopKinds /\ NextPubId <= MaxPub THEN [op : {"pub"}, t : Types, val : Vals, ctx : Ctxs \cup {Bg}] ELSE {})
-  \cup (IF "cancel" \in TopKinds THEN {[op |-> "cancel", ctx |-> c] : c \in Ctxs \ cancelled} ELSE {})
-  \cup (IF "wait" \in TopKinds THEN {[op |-> "wait"]} ELSE {})
-  \cup (IF "shutdown" \in TopKinds THEN {[op |-> "shutdown", ctx |-> c] : c \in Ctxs} ELSE {})
+allRoles == [g \in Procs |-> TopKinds]
+KindsOf(g) == Roles[g]
+
+TopOps(g) ==
+  LET TopKinds2 == KindsOf(g) IN
+       (IF "sub" \in TopKinds2 /\ NextRegId <= MaxReg THEN {SubOp(tf[1], tf[2], pr) : tf \in Types \X Fns, pr \in ProfChoice} ELSE {})
+  \cup (IF "unsub" \in TopKinds2 THEN [op : {"unsub"}, t : Types, fn : Fns] ELSE {})
+  \cup (IF "clear" \in TopKinds2 THEN [op : {"clear"}, t : Types] ELSE {})
+  \cup (IF "clearall" \in TopKinds2 THEN {[op |-> "clearall"]} ELSE {})
+  \cup (IF "count" \in TopKinds2 THEN [op : {"count"}, t : Types] ELSE {})
+  \cup (IF "pub" \in TopKinds2 /\ NextPubId <= MaxPub THEN [op : {"pub"}, t : Types, val : Vals, ctx : PubCtxs] ELSE {})
+  \cup (IF "cancel" \in TopKinds2 THEN {[op |-> "cancel", ctx |-> c] : c \in Ctxs \ cancelled} ELSE {})
+  \cup (IF "wait" \in TopKinds2 THEN {[op |-> "wait"]} ELSE {})
+  \cup (IF "shutdown" \in TopKinds2 /\ closed = 0 THEN {[op |-> "shutdown", ctx |-> c] : c \in Ctxs} ELSE {})
 
 DoCall(g, o) ==
   IF o.op = "pub"
@@ -58,7 +64,7 @@ InvKey(g) == TaskId(Top(g).pub, Top(g).reg)
 TopCall ==
   \E g \in Procs : /\ stack[g] = <<>>
                    /\ MaxTop = 0 \/ Len(hist) < MaxTop
-                   /\ \E o \in TopOps : DoCall(g, o) /\ hist' = Append(hist, [g |-> g, o |-> o])
+                   /\ \E o \in TopOps(g) : DoCall(g, o) /\ hist' = Append(hist, [g |-> g, o |-> o])
                    /\ UNCHANGED scr
 
 \* a handler body runs its script, then returns (or panics, if its profile says so)
@@ -120,7 +126,7 @@ MutClaimRacy(g) ==
 MutWaitEarly(g) ==
   /\ Mutant = "addinside"
   /\ g \in Gs /\ stack[g] # <<>> /\ Top(g).k = "op" /\ Top(g).pc = "lin" /\ Top(g).o.op = "wait"
-  /\ \A k \in Tasks : Top(k).pc = "tctx"
+  /\ WaitingTasks = Tasks
   /\ SetTop(g, [Top(g) EXCEPT !.pc = "ret", !.res = "ok"])
   /\ gh' = [gh EXCEPT !.bad = @ \cup Flag(gh.waitNeeds[g] \cap Tasks # {}, "waitEarly")]
   /\ UNCHANGED <<cfg, reg, attr, fired, seqHolder, cancelled, closed, pubs, npub>>
